@@ -10,3 +10,11 @@ package extension
 //@ func (*EventBroker).Emit
 //@   trusted
 //@   attr result-ghost=ghost_lastEmit
+
+// Emit (asynchronous broker): one goroutine per listener is started with a copy of the event; the
+// goroutines are not interleaved (D2).  The engine records the call in the ghost log of the broker
+// (count and event pointers).  The loop itself is verified on the instantiations.
+//@ func (*AsyncEventBroker).Emit
+//@   trusted
+//@   attr log-count=ghost_nemitted
+//@   attr log-arg=ghost_emitted
